@@ -156,6 +156,7 @@ def canon_obj(x, sort_rows=False, drop_index=False):
     """Canonical, comparable description of a pandas object (frames, series, index, scalars)."""
     if isinstance(x, pd.Index):
         x = x.to_series().reset_index(drop=True)
+        drop_index = True
     if isinstance(x, pd.Series):
         x = x.to_frame(name=("__series__", x.name))
     if isinstance(x, pd.DataFrame):
